@@ -31,6 +31,11 @@ def jobs(tier):
                    units=PUTVAR_UNITS, unwind=5, object_bits=10, timeout=1500, backend=["--external-sat-solver", "kissat"],
                    desc="a put to a fixed-size variable never changes the record count", functions=PUTVAR_FUNCS,
                    bounds="ndims=1, count<=2, nprocs 2..4", assumptions=STUB_NOTE))
+    out.append(Job(oid="C05.d.sync_numrecs", harness="C05/syncnumrecs.c", defines=["-DVT_MAX=8", "-DVT_NTYPES=2"], stubs=MPI,
+                   units=["src/drivers/ncmpio/ncmpio_sync.c", "src/drivers/common/error_mpi2nc.c", "src/drivers/common/ncx.m4"], unwind=9, timeout=600,
+                   desc="ncmpio_sync_numrecs (behind sync_numrecs, sync, end_indep_data, redef, close): from independent mode one "
+                        "Allreduce(MAX) of the local count, every rank ends with the agreed value, dirty bit cleared, root writes the header",
+                   functions=["ncmpio_sync_numrecs", "ncmpio_write_numrecs"], bounds="nprocs<=4, every mode/flag state", assumptions=STUB_NOTE))
     from props.C16 import fillrec_jobs
     out += fillrec_jobs(tier, 'C05.e', inject=False)
     return out
@@ -43,5 +48,5 @@ MANIFEST = dict(
          "subarray, incl. requests without elements, for every start/count/stride/shape/numrecs/rank/nprocs within the bound. "
          "Coherence across ranks follows because every rank assigns the reduced value.",
     note="Bound: 1-2 dimensions, count<=2 per dimension, start<2^31, nprocs<=4; real MPI_Allreduce agreement is the model's contract; "
-         "nonblocking wait (req_commit), sync_numrecs/end_indep/close and fill_var_rec obligations are separate jobs where present; "
+         "the synchronisation point ncmpio_sync_numrecs (C05.d), record fill (C05.e) and the nonblocking wait (C02.c) are separate jobs; "
          "intra-node aggregation and vard paths are outside the claim.")
